@@ -154,7 +154,13 @@ async fn read_response(io: &mut Box<dyn Io>, id: u32, resp_len: usize) -> Result
 }
 
 async fn raw_h1_conn(net: Network, plan: ConnPlan, obs: Arc<Mutex<ConnObs>>, mode: Option<(IoMode, IoMode)>, tls: bool) {
-    let io = match net.raw_connect("http://srv.test", mode) {
+    let io = net.raw_connect("http://srv.test", mode);
+    raw_h1_conn_on(net, plan, obs, io, tls).await
+}
+
+/// The same client over a connect attempt that has already been made (synchronously, by the driver).
+async fn raw_h1_conn_on(net: Network, plan: ConnPlan, obs: Arc<Mutex<ConnObs>>, io: std::io::Result<SimStream>, tls: bool) {
+    let io = match io {
         Ok(io) => io,
         Err(_) => {
             obs.lock().refused = true;
@@ -383,7 +389,7 @@ impl Scenario for ShutdownSim {
 
     fn info(&self) -> ScenarioInfo {
         ScenarioInfo {
-            rule: "Server::with_graceful_shutdown over the simulated acceptor, protocols http1 / http2 / auto, plain or behind the TLS acceptor (a third of the runs; then also clients that stall half-way through the ClientHello or go silent after the TLS handshake), 0-4 connections (raw HTTP/1.1 keep-alive clients that send heads in two parts and bodies in delayed chunks, hyper HTTP/2 clients with 1-3 concurrent streams, silent connections), handler delays and delayed response chunks, the signal at a drawn virtual instant in 0..60 ms so that it lands in every stage; two more connects after the signal. Oracle (history relative to the signal instant): serving future Ok(()) at the signal; nothing connected afterwards is served; every request whose handler had started gets its complete correct response; every connection is closed by the server and every connection task finishes within 1 s (5 s with I/O delays) of its last in-flight exchange; idle and still-sniffing connections are closed. Non-trivial: at least one connection open at the signal; distinct = (protocol, multiset of connection stages at the signal).".into(),
+            rule: "Server::with_graceful_shutdown over the simulated acceptor, protocols http1 / http2 / auto, plain or behind the TLS acceptor (a third of the runs; then also clients that stall half-way through the ClientHello or go silent after the TLS handshake), 0-4 connections (raw HTTP/1.1 keep-alive clients that send heads in two parts and bodies in delayed chunks, hyper HTTP/2 clients with 1-3 concurrent streams, silent connections), handler delays and delayed response chunks, the signal at a drawn virtual instant in 0..60 ms so that it lands in every stage; three more connects after the signal (one queued at the very instant of the signal, before the server task runs again). Oracle (history relative to the signal instant): serving future Ok(()) at the signal; nothing connected afterwards is served; every request whose handler had started gets its complete correct response; every connection is closed by the server and every connection task finishes within 1 s (5 s with I/O delays) of its last in-flight exchange; idle and still-sniffing connections are closed. Non-trivial: at least one connection open at the signal; distinct = (protocol, multiset of connection stages at the signal).".into(),
             real: vec![
                 "Server::with_graceful_shutdown, GracefulShutdown::poll, Serving::poll_once, close()/CloseSender/CloseReciever",
                 "GracefulConnectionDriver, Connection::graceful_shutdown for http1 / http2 / auto (UpgradableConnection, ReadVersion::cancel), Connecting",
@@ -443,7 +449,7 @@ impl Scenario for ShutdownSim {
                         plans.insert(r.id, r.handler.clone());
                     }
                 }
-                for id in [900u32, 901] {
+                for id in [900u32, 901, 902] {
                     plans.insert(id, HandlerPlan::default());
                 }
                 let ctx = HandlerCtx { net: net.clone(), log: log.clone(), plans: Arc::new(plans), origin: "http://srv.test".into() };
@@ -492,6 +498,22 @@ impl Scenario for ShutdownSim {
                 let t_s = net.now_ms();
                 let pumped_at_signal = crate::net::pumped_ms();
                 let _ = tx.send(());
+                // a connect that is queued at the very instant of the signal, before the server task
+                // has run again: it sits in the acceptor when the server next looks
+                {
+                    let o = Arc::new(Mutex::new(ConnObs::default()));
+                    obs.push(o.clone());
+                    let io = net.raw_connect("http://srv.test", None);
+                    let (net, tls) = (net.clone(), case.tls);
+                    tasks.push(tokio::task::spawn_local(async move {
+                        let plan = ConnPlan {
+                            kind: ConnKind::RawH1,
+                            start_ms: 0,
+                            reqs: vec![ReqSpec { id: 902, gap_ms: 0, head_split: None, body_len: 0, body_chunk: 10, body_delay_ms: 0, handler: HandlerPlan::default() }],
+                        };
+                        raw_h1_conn_on(net, plan, o, io, tls).await;
+                    }));
+                }
                 // two late connects
                 for (k, delay) in [(900u32, 1u64), (901, 40)] {
                     let o = Arc::new(Mutex::new(ConnObs::default()));
